@@ -18,6 +18,7 @@ import VaxisModel.Lemmas.EmuBodyTabs
 import VaxisModel.Lemmas.EmuBodyModes
 import VaxisModel.Lemmas.EmuBodyReflow
 import VaxisModel.Lemmas.EmuBodySgr
+import VaxisModel.Lemmas.EmuBodyOsc
 import VaxisModel.Lemmas.EmuSafe1
 
 namespace VaxisModel.Props.C05Bodies
@@ -210,6 +211,16 @@ theorem body_decrqm (e : Emu) (pd : Int) : evalBody TermBodies.body_decrqm [] [p
     legacy forms `38;5;n` / `38;2;r;g;b` with their `i += 2/4`, the colon forms with 3 / 5 / 6 sub-parameters, and every malformed form (the
     `return`s), with the index expressions `params[i+1][0]`, `params[i][1]` … as checked accesses. -/
 theorem body_sgr (e : Emu) (pm : List Param) : evalBody TermBodies.body_sgr pm [] e = sgr e pm := body_sgr_eq e pm
+
+/-- osc() (osc.go): for EVERY payload, base64 verdict, answer of the host terminal and state: the resulting state AND the number of
+    events posted are the model's (`cutString` splits, the selector switch "0"/"2"/"8"/"9"/"11"/"52"/"777", OSC 8 only with `vt.OSC8`,
+    OSC 52 / OSC 11 `?` return without a Vaxis, the nested "notify" form). -/
+theorem body_osc (e : Emu) (data : List Nat) (info : OscInfo) (hostEmpty : Bool) :
+    evalOsc TermBodies.body_osc data info hostEmpty e = osc Fixes.current e data info := body_osc_eq e data info hostEmpty
+/-- `cutString` is a primitive of the statement language (meaning `cutSemi`): its source is the text the primitive was written against. -/
+theorem cutString_pinned : TermBodies.cutStringSrc =
+    "// Copied from stdlib to here for go 1.16 compat func cutString(s string, sep string) (before string, after string, found bool) { if i := strings.Index(s, sep); i >= 0 { return s[:i], s[i+len(sep):], true } return s, \"\", false }" :=
+  cutString_source
 
 /-! ### coverage -/
 
